@@ -220,7 +220,7 @@ def run_cache_scenario(sc, strategy, line_level=False, max_steps=8000):
                     s.log(ev='deliver', c=self.name, p=p, pm=p.split(':')[0], v=v,
                           by='snap' if me is not None and me.name.startswith('r_') else 'bcast')
 
-        conns = {c: VConn(c, w) for c in ('c1', 'c2')}
+        conns = {c: VConn(c, w) for c in ('c1', 'c2', 'c3')}
         for c in conns.values():
             disp.add_connection(c)
         # initial state = version 0 of everything; both connections activate before the workers start
@@ -240,6 +240,8 @@ def run_cache_scenario(sc, strategy, line_level=False, max_steps=8000):
 
         def activator():
             for cname, conn in conns.items():
+                if cname == 'c3':
+                    continue        # c3 is reserved for requests racing with the updates
                 s.log(ev='req', c=cname, kind='activate', scope='.', sm='.')
                 rep = disp.handle_request(conn, ('activate', None, None))
                 conn.send_reply(rep)
@@ -268,10 +270,29 @@ def run_cache_scenario(sc, strategy, line_level=False, max_steps=8000):
                 except Exception:
                     pass
 
+        def requester(cname, script):
+            ready.wait()
+            conn = conns[cname]
+            for kind, scope in script:
+                s.log(ev='req', c=cname, kind=kind, scope=scope or '.', sm=(scope or '.').split(':')[0])
+                msg = {'activate': ('activate', scope, None), 'deactivate': ('deactivate', scope, None),
+                       'ident': ('*IDN?', None, None)}[kind]
+                try:
+                    rep = disp.handle_request(conn, msg)
+                except ds.SchedAbort:
+                    raise
+                except Exception as e:
+                    rep = ('error_' + msg[0], scope, [type(e).__name__, str(e), {}])
+                conn.send_reply(rep)
+                s.log(ev='reply', c=cname, kind=kind, scope=scope or '.', sm=(scope or '.').split(':')[0],
+                      params=scope_params(scope) if kind != 'ident' else [])
+
         s.setup_phase = True
         s.spawn('r_act', activator)
         for k, ops in enumerate(sc['workers']):
             s.spawn(f'u{k + 1}', worker, ops)
+        for cname, script in sorted(sc.get('requests', {}).items()):
+            s.spawn('r_' + cname, requester, cname, script)
         s.run()
     ev = s.events
     ev.append({'ev': 'quiet', 'params': [{'p': p, 'pm': p.split(':')[0]} for p in w.params],
